@@ -7,6 +7,7 @@ import (
 	"fmt"
 	"io"
 	"sort"
+	"strings"
 	"sync"
 
 	remoteexecution "github.com/bazelbuild/remote-apis/build/bazel/remote/execution/v2"
@@ -81,14 +82,15 @@ type store struct {
 	df digest.Function
 
 	// Policy and observation hooks, set by the world that owns the store.
-	single      func(idx int, r *request) int // planned fault of the idx-th completed call (fNone: none); may be nil
-	randomRate  int                           // > 0: every call may also be completed with one of randomKinds (event weight randomRate, against 10)
-	randomKinds []int
-	errOnPutOK  func() bool                                         // may an error of its own be injected into a CAS Put now? (nil: yes)
-	cancel      func(r *request)                                    // cancels the context of the execution that issued r
-	onACWrite   func(r *request, res *remoteexecution.ActionResult) // called at every attempt to write the AC
-	onCall      func(rec callRecord)                                // called for every completed call
-	acWrites    int
+	single          func(idx int, r *request) int // planned fault of the idx-th completed call (fNone: none); may be nil
+	randomRate      int                           // > 0: every call may also be completed with one of randomKinds (event weight randomRate, against 10)
+	randomKinds     []int
+	errOnPutOK      func() bool                                         // may an error of its own be injected into a CAS Put now? (nil: yes)
+	cancel          func(r *request)                                    // cancels the context of the execution that issued r
+	onACWrite       func(r *request, res *remoteexecution.ActionResult) // called at every attempt to write the AC
+	onCall          func(rec callRecord)                                // called for every completed call
+	acWrites        int
+	allowDuplicates bool
 
 	mu      sync.Mutex
 	pending []*request
@@ -166,8 +168,13 @@ func (s *store) events() []simsync.Event {
 		return reqs[i].arrive < reqs[j].arrive
 	})
 	for i := 1; i < len(reqs); i++ {
-		if reqs[i].key == reqs[i-1].key {
-			panic(simsync.HarnessError{Msg: "two identical storage calls in flight at once: " + reqs[i].key})
+		if reqs[i].key == reqs[i-1].key || strings.HasPrefix(reqs[i].key, reqs[i-1].key+" #") {
+			if !s.allowDuplicates {
+				panic(simsync.HarnessError{Msg: "two identical storage calls in flight at once: " + reqs[i].key})
+			}
+			// Calls of two executions that overlap on one thread; they
+			// arrived in different steps, so their order is reproducible.
+			reqs[i].key = fmt.Sprintf("%s #%d", strings.SplitN(reqs[i].key, " #", 2)[0], reqs[i].arrive)
 		}
 	}
 	if len(reqs) > s.maxPending {
@@ -325,7 +332,10 @@ func (s *store) apply(r *request, rec *callRecord) response {
 		}
 		sum := sha256.Sum256(data)
 		if hex.EncodeToString(sum[:]) != r.d.GetHashString() || int64(len(data)) != r.d.GetSizeBytes() {
-			return response{err: status.Errorf(codes.InvalidArgument, "blob contents do not match digest %s", r.d)}
+			// The buffer claimed to be valid for this digest (a buffer that
+			// verifies its checksum would have failed above), so a storage
+			// backend stores it as it is: a corrupt blob.
+			s.k.Violate("C09/corrupt-blob-stored", fmt.Sprintf("the CAS was handed %d bytes with sha256 %s for Put(%s), in a buffer that does not verify its contents: the blob stored under that digest is corrupt (call %s)", len(data), hex.EncodeToString(sum[:])[:12], r.d, r.key))
 		}
 		s.cas[blobKey(r.d)] = data
 		rec.effect = true
@@ -455,14 +465,21 @@ type recordingWriter struct {
 	buffers []*trackedBuffer
 	acked   map[string]bool // writes acknowledged since the last flush
 	ackedN  int
+	// passThrough leaves the buffers as the code under test built them.
+	passThrough bool
 }
 
 func (w *recordingWriter) Put(ctx context.Context, d digest.Digest, b buffer.Buffer) error {
-	w.mu.Lock()
-	t := &trackedBuffer{id: len(w.buffers), key: blobKey(d), r: b.ToReader()}
-	w.buffers = append(w.buffers, t)
-	w.mu.Unlock()
-	err := w.BlobAccess.Put(ctx, d, buffer.NewCASBufferFromReader(d, t, buffer.UserProvided))
+	var err error
+	if w.passThrough {
+		err = w.BlobAccess.Put(ctx, d, b)
+	} else {
+		w.mu.Lock()
+		t := &trackedBuffer{id: len(w.buffers), key: blobKey(d), r: b.ToReader()}
+		w.buffers = append(w.buffers, t)
+		w.mu.Unlock()
+		err = w.BlobAccess.Put(ctx, d, buffer.NewCASBufferFromReader(d, t, buffer.UserProvided))
+	}
 	w.mu.Lock()
 	if err == nil {
 		if w.acked[blobKey(d)] {
